@@ -114,20 +114,24 @@ inductive ShiftRes where
   | panic
   deriving DecidableEq, Repr
 
-/-- `case "shift"` of `Runner.builtin` on `nparams` positional parameters. -/
+/-- The count: `n := 1`, or `strconv.Atoi(args[0])`; `none` is the usage error. -/
+def shiftCount : List Bytes → Option Int
+  | [] => some 1
+  | [a] => goAtoi a
+  | _ => none
+
+/-- `if n >= len(r.Params) { r.Params = nil } else { r.Params = r.Params[n:] }`. -/
+def shiftBy (params : List Bytes) (n : Int) : ShiftRes :=
+  if n ≥ (params.length : Int) then .ok 0
+  else match sliceFromI params n with      -- r.Params[n:]
+    | .ok rest => .ok rest.length
+    | .panic => .panic
+
+/-- `case "shift"` of `Runner.builtin`. -/
 def shift (params : List Bytes) (args : List Bytes) : ShiftRes :=
-  let n? : Option Int :=
-    match args with
-    | [] => some 1
-    | [a] => goAtoi a
-    | _ => none
-  match n? with
+  match shiftCount args with
   | none => .usage
-  | some n =>
-    if n ≥ (params.length : Int) then .ok 0
-    else match sliceFromI params n with      -- r.Params[n:]
-      | .ok rest => .ok rest.length
-      | .panic => .panic
+  | some n => shiftBy params n
 
 /-! ### break / continue -/
 
@@ -404,15 +408,18 @@ def cutPrefixG : Bytes → Option Bytes
   | 103 :: r => some r
   | _ => none
 
+/-- `arg, ok := strings.CutPrefix(arg, "g")`. -/
+def waitCut (a : Bytes) : Bool × Bytes :=
+  match cutPrefixG a with
+  | some r => (true, r)
+  | none => (false, a)
+
 def waitArgs (nprocs : Nat) : List Bytes → Nat → List Nat → Res WaitRes
   | [], _, acc => .ok (.waited acc.reverse)
   | a :: rest, k, acc =>
-    let (ok, arg) := match cutPrefixG a with
-      | some r => (true, r)
-      | none => (false, a)
-    let pid := atoiLoose arg
-    if !ok ∨ pid ≤ 0 ∨ pid > (nprocs : Int) then .ok (.notChild k)
-    else match getI (List.range nprocs) (pid - 1) with      -- r.bgProcs[pid-1]
+    if !(waitCut a).1 ∨ atoiLoose (waitCut a).2 ≤ 0 ∨ atoiLoose (waitCut a).2 > (nprocs : Int) then
+      .ok (.notChild k)
+    else match getI (List.range nprocs) (atoiLoose (waitCut a).2 - 1) with      -- r.bgProcs[pid-1]
       | .panic => .panic
       | .ok i => waitArgs nprocs rest (k + 1) (i :: acc)
 
@@ -442,6 +449,14 @@ def indexRune : List Nat → Nat → Nat → Option Nat
 
 def gDone : GOut := ⟨63, [], true⟩
 
+/-- `i >= 0 && i+1 < len(optstr) && optstr[i+1] == ':'` with `i := strings.IndexRune(optstr, opt)`.
+    Go tests the *byte* after the first byte of the rune, so a multi-byte option rune never takes
+    an argument. -/
+def needsArg (optstr : List Nat) (opt : Nat) : Bool :=
+  match indexRune optstr opt 0 with
+  | some i => decide (opt < 128) && decide (i + 1 < optstr.length) && (optstr[i + 1]? == some 58)
+  | none => false
+
 /-- `getopts.next`. -/
 def gnext (g : GState) (optstr : List Nat) (args : List (List Nat)) : Res (GState × GOut) :=
   if args.length = 0 ∨ g.argidx ≥ args.length then .ok (g, gDone) else
@@ -463,11 +478,7 @@ def gnext (g : GState) (optstr : List Nat) (args : List (List Nat)) : Res (GStat
     match getN opts g.runeidx with               -- opts[g.runeidx]
     | .panic => .panic
     | .ok opt =>
-      let i := indexRune optstr opt 0
-      let needsArg : Bool := match i with
-        | some i => decide (i + 1 < optstr.length) && (optstr[i + 1]? == some 58)
-        | none => false
-      if needsArg then
+      if needsArg optstr opt then
         if g.runeidx + 1 < opts.length then
           match sliceFromN opts (g.runeidx + 1) with
           | .panic => .panic
@@ -480,9 +491,8 @@ def gnext (g : GState) (optstr : List Nat) (args : List (List Nat)) : Res (GStat
       else
         let g' : GState :=
           if g.runeidx + 1 < opts.length then ⟨g.argidx, g.runeidx + 1⟩ else ⟨g.argidx + 1, 0⟩
-        match i with
-        | none => .ok (g', ⟨63, [opt], false⟩)
-        | some _ => .ok (g', ⟨opt, [], false⟩)
+        if (indexRune optstr opt 0).isNone then .ok (g', ⟨63, [opt], false⟩)
+        else .ok (g', ⟨opt, [], false⟩)
 
 /-- The cursor synchronisation of `case "getopts"` with the shell variable OPTIND. -/
 def gsync (g : GState) (optind : Int) : GState :=
